@@ -472,6 +472,33 @@ def known_finding_stream(ck):
         ck.violation("positional layout 'number;5' parses neither to the data nor in the way finding F-C09-a describes", {"parsed": rp})
 
 
+def witness_stream(ck):
+    """kernel-checked witnesses of Props/C09.lean replayed on the real code"""
+    M = G.model
+    t = M("ExPerm", [("a", "str", ""), ("xs", ("list", "str"), []), ("b", "int", 0)])
+    cls = R.mk_class(t)
+    good = R.real_parse(cls, t, {"xs.1": "p", "xs.2": "q"})
+    bad = R.real_parse(cls, t, {"xs.2": "q", "xs.1": "p"})
+    ck.evaluations += 2
+    if good[0] != "ok" or bad[0] != "err":
+        ck.tie_break("Lean witness column_perm_needs_different_fields does not behave like the real code", {"in_order": good, "swapped": bad})
+    else:
+        ck.count("witness.confirmed")
+    # asterisk broadcast example: e.*.f = a with e.*.c = x|y  ==  e.*.f = a|a
+    e = M("E", [("f", "str", ""), ("c", "str", "")])
+    t2 = M("ExStar", [("e", ("list", e), [])])
+    c2 = R.mk_class(t2)
+    r1 = R.real_parse(c2, t2, {"e.*.f": "a", "e.*.c": "x|y"})
+    r2 = R.real_parse(c2, t2, {"e.*.f": "a|a", "e.*.c": "x|y"})
+    r3 = R.real_parse(c2, t2, {"e.1.f": "a", "e.2.f": "a", "e.1.c": "x", "e.2.c": "y"})
+    ck.evaluations += 3
+    if not (r1 == r2 == r3 and r1[0] == "ok"):
+        ck.violation("a single value in a `*` column is not broadcast to every element of the list it abbreviates",
+                     {"scalar": r1, "list": r2, "indexed": r3})
+    else:
+        ck.count("witness.confirmed")
+
+
 def fold(ck, results):
     for r in results:
         ck.evaluations += r["n"]
@@ -539,6 +566,7 @@ def run(ck: core.Check):
     cases = gen_cases(ck, per_schema=200 if quick else 1200, flow_n=5000 if quick else 40000, n_random=6, n_perm=4 if quick else 12)
     fold(ck, par.pmap(worker, core.shard(cases, par.NPROC * 2)))
     known_finding_stream(ck)
+    witness_stream(ck)
     for need in ("layout.unparse", "layout.encode", "layout.short", "layout.with-star-column", "layout.encode+perm", "corpus.differentways", "corpus.full_rows",
                  "feature.record.positional", "feature.record.keyword", "feature.record.mixed", "feature.list.semicolon-cell",
                  "feature.star.broadcast", "feature.star.list"):
@@ -551,7 +579,9 @@ def run(ck: core.Check):
 
 
 PARTIAL_GAP = [
-    "layout_independent / column commutation are proved for the schema family of Props/C07.lean / Props/C09.lean; the general statements are kept as defs (…_full) and exercised by tie + oracle",
+    "asterisk_expand / asterisk_broadcast / column_perm are proved for every schema; short_eq_long and message_text_eq_main_arg for the flow row schema with the T1 tables, for arbitrary other columns and cell texts",
+    "layout_independent_partial (spread vs packed) holds for the family of C07's parse_unparse_partial; positional_eq_keyword_partial for records of basic-typed fields (positional prefix of any length vs the key/value cell); the general statements layout_independent_full / positional_eq_keyword_full (nested records, mixed positional+keyword entries, lists of records) are stated, not proved — exercised by tie + oracle",
+    "short headers are proved equal to the long `*` forms (edges.*.from_ …); that a pre-parsed element of a `*` column equals the raw cell of the indexed column (edges.1.from) relies on the leaf being a string field — shown on concrete rows by kernel evaluation and by the tie, not as a general theorem",
 ]
 
 
